@@ -237,6 +237,21 @@ func (x *Exec) checkInvariant(fr *Frame, li *LoopInfo, ls *LoopSpec, st *State, 
 		x.st = st
 		x.oblige(class, li.key+"."+c.Label, term(v), li.head.Instrs[0].Pos())
 	}
+	if x.dry == 0 && x.dryLoop == nil {
+		if x.loopSeen == nil {
+			x.loopSeen, x.loopBack = map[string]bool{}, map[string]bool{}
+		}
+		k := x.funcName() + " loop " + li.key
+		if class == "I0" {
+			x.loopSeen[k] = true
+		} else if !x.loopBack[k] {
+			// vacuity guard: the end of the loop body must be reachable under the invariants and everything
+			// assumed on the way ("false" must not be provable there)
+			x.loopBack[k] = true
+			x.st = st
+			x.oblige("V", "body:"+li.key, False(), li.head.Instrs[0].Pos())
+		}
+	}
 	if class == "I1" && ls.Decreases != nil {
 		cut := st.inLoop[li.head]
 		v := term(x.evalClause(fr, li, st, ls.Decreases))
